@@ -38,7 +38,7 @@ package timestamp
 //@   requires req != nil && req.Timestamper != nil
 //@   calls NewRequest, Timestamper.Timestamp, SignedToken.Verify, Validator.ValidateContext
 //@   ensures [err=>no-token] err != nil ==> len(result) == 0 && result == nil
-//@   ensures [ok=>request] err == nil ==> called(NewRequest) && called(Timestamper.Timestamp) && lastarg(NewRequest, 0) == opts && lastarg(Timestamper.Timestamp, 2) == lastret(NewRequest, 0) && ncalls(Timestamper.Timestamp) == old(ncalls(Timestamper.Timestamp)) + 1
+//@   ensures [ok=>request] err == nil ==> called(NewRequest) && called(Timestamper.Timestamp) && lastarg(NewRequest, 0) == opts && lastret(NewRequest, 1) == nil && lastret(Timestamper.Timestamp, 1) == nil && lastarg(Timestamper.Timestamp, 2) == lastret(NewRequest, 0) && ncalls(Timestamper.Timestamp) == old(ncalls(Timestamper.Timestamp)) + 1
 //@   ensures [ok=>verified-against-caller-roots] err == nil ==> called(Timestamper.Timestamp) && called(SignedToken.Verify) && lastarg(SignedToken.Verify, 0) == TokenOf(lastret(Timestamper.Timestamp, 0)) && lastarg(SignedToken.Verify, 2).Roots == req.TSARootCAs && lastret(SignedToken.Verify, 1) == nil
 //@   ensures [ok=>tsa-chain-valid] err == nil ==> called(SignedToken.Verify) && nx509.TimestampingChainOK(lastret(SignedToken.Verify, 0))
 //@   ensures [ok=>unrevoked] (err == nil && req.TSARevocationValidator != nil) ==> called(SignedToken.Verify) && called(Validator.ValidateContext) && lastarg(Validator.ValidateContext, 2).CertChain == lastret(SignedToken.Verify, 0) && lastret(Validator.ValidateContext, 1) == nil && len(lastret(Validator.ValidateContext, 0)) == len(lastret(SignedToken.Verify, 0)) && len(lastret(Validator.ValidateContext, 0)) > 0 && AllGood(lastret(Validator.ValidateContext, 0))
